@@ -421,8 +421,17 @@ def r194(repo, ctx, index):
     ok = ok and seen == {'gt', 'lt'}
     ctx.check(ok, 'R19.4', SC, f'{BASECLS}._testCondition', f, 'GREATER_THAN tests value > threshold, LESSER_THAN tests value < threshold', 'the inequality table is wrong')
     p = repo.func(SC, f'{BASECLS}._poll')
-    t = U.src(p).replace(' ', '')
-    ctx.check('p=model.phaseIndex(self._phase)' in t and 'returndata[n,p]' in t, 'R19.4', SC, f'{BASECLS}._poll', p, 'per-phase conditions read column phaseIndex(phase) of their history', 'per-phase conditions do not read the column of the requested phase')
+    from ..formula import single_defs, inline
+    pdefs = single_defs(p)
+    rets = [r for r in ast.walk(p) if isinstance(r, ast.Return) and r.value is not None]
+    ok_poll = False
+    if len(rets) == 1:
+        rv = inline(rets[0].value, pdefs)
+        if isinstance(rv, ast.Subscript) and isinstance(rv.slice, ast.Tuple) and len(rv.slice.elts) == 2:
+            base, row, col = rv.value, rv.slice.elts[0], rv.slice.elts[1]
+            ok_poll = isinstance(base, ast.Call) and U.call_name(base) == 'self._getData' and isinstance(row, ast.Name) and row.id == U.params(p)[2] \
+                and isinstance(col, ast.Call) and U.call_attr(col) == 'phaseIndex' and len(col.args) == 1 and U.chain(col.args[0]) == ('self', '_phase')
+    ctx.check(ok_poll, 'R19.4', SC, f'{BASECLS}._poll', p, 'per-phase conditions read column phaseIndex(phase) of their history', 'per-phase conditions do not read the column of the requested phase')
 
 
 def _is_conds(e):
